@@ -544,6 +544,23 @@ def invalid_specs(r):
     return out
 
 
+THREE_QUBIT_TARGETS = [((2, 0, 1), 3, []), ((1, 2, 0), 3, []), ((3, 0, 1), 4, [2]), ((2, 0, 1), 4, [3]), ((1, 3, 0), 4, []),
+                       ((2, 3, 0), 4, [1]), ((3, 1, 2), 4, [0]), ((0, 2, 1), 4, [3]), ((2, 1, 0), 3, [])]
+
+
+def three_qubit_specs(r, thorough, n=None):
+    out = []
+    targets = THREE_QUBIT_TARGETS if thorough else [THREE_QUBIT_TARGETS[0], THREE_QUBIT_TARGETS[2 + int(r.integers(0, 3))]]
+    for tgt, N, singles in (targets if n is None else THREE_QUBIT_TARGETS[:n]):
+        blocks = [tgt] + list(singles)
+        if r.random() < 0.5:
+            blocks = blocks[::-1]
+        st = str(r.choice(['none', 'diag', 'ff']))
+        out.append(make_spec(r, blocks, N, dict(basis='pauli', state=st, N_given=True, add=False,
+                                                noise=str(r.choice(['nontraceless', 'entangling'])))))
+    return out
+
+
 def case_specs(ctx, r):
     specs = []
     for N in (2, 3):
@@ -559,6 +576,9 @@ def case_specs(ctx, r):
     for noise in ('nontraceless', 'projector'):
         specs.append(make_spec(r, [0, 1], 2, dict(noise=noise, basis='pauli', state='ff', cf=None, cd=None, same_omega=True, add=False)))
         specs.append(make_spec(r, [(2, 0), 1], 3, dict(noise=noise, basis='pauli', state='ff', cf=True, cd=None, same_omega=True, add=True)))
+    # pulses on three qubits mapped in orders that are not self-inverse permutations (the implied remap needs the
+    # argsort of the qubit tuple, not its inverse), alone (shortcut, N = 3) and inside a 4-qubit register
+    specs += three_qubit_specs(r, ctx.thorough)
     # every combination of the caching options on one assignment
     for cd, cf, om, st in itertools.product([None, True, False], [None, True, False], [False, True], ['none', 'ff'] if not ctx.thorough else ['none', 'diag', 'tp', 'cm', 'ff']):
         specs.append(make_spec(r, [1, (2, 0)] if ctx.thorough else [1, 0], 3 if ctx.thorough else 2,
@@ -705,7 +725,7 @@ def search(ctx, broken):
 
         class T:
             thorough = True
-        for spec in case_specs(T, r)[:500]:
+        for spec in three_qubit_specs(r, True) + case_specs(T, r)[:500]:
             builder, fails, nt, tag = evaluate(spec)
             if fails:
                 f = to_failure('prop', fails[0][0], fails[0][1], spec)
